@@ -846,6 +846,7 @@ def _parse(
     template: Template,
     in_block: str | None = None,
     in_loop: str | None = None,
+    outer_loop: str | None = None,
 ) -> _ChunkList:
     body = _ChunkList([])
     while True:
@@ -947,6 +948,9 @@ def _parse(
                     f"{operator} block cannot be attached to {in_block} block"
                 )
             body.chunks.append(_IntermediateControlBlock(contents, line))
+            if operator == "else" and in_block in ("for", "while"):
+                # The else clause of a loop is no longer inside that loop.
+                in_loop = outer_loop
             continue
 
         # End tag
@@ -1009,7 +1013,7 @@ def _parse(
         elif operator in ("apply", "block", "try", "if", "for", "while"):
             # parse inner body recursively
             if operator in ("for", "while"):
-                block_body = _parse(reader, template, operator, operator)
+                block_body = _parse(reader, template, operator, operator, in_loop)
             elif operator == "apply":
                 # apply creates a nested function so syntactically it's not
                 # in the loop.
